@@ -64,9 +64,6 @@ package model
 //@ func (*P0x8800).Parse
 //@   loop 1 decreases int(p.AgainPackageCount) - i
 
-//@ func (*P0x9212).Parse
-//@   loop 1 decreases int(p.RetransmitPacketNumber) - i
-
 //@ func (*T0x0805).Parse
 //@   loop 1 decreases int(t.MultimediaIDNumber) - i
 
@@ -260,3 +257,43 @@ package model
 
 //@ func (*T0x0801).ReplyBody
 //@   ensures C06.multimedia: result1 == nil && (len(jtMsg.Body) >= 36 ==> len(result0) == 4 && be32(result0, 0) == old(be32(jtMsg.Body, 0)))
+
+// ---------------------------------------------------------------------------------------------
+// C16: the 0x9212 completion response. Layout (JT/T 1078 / Su-biao table): name length, name, type, result, count,
+// then count pairs (offset uint32, length uint32), 8 bytes each. Parse is the inverse used by terminals.
+// ---------------------------------------------------------------------------------------------
+//@ func (*P0x9212).Encode
+//@   mode contract
+//@   modifies nothing
+//@   ensures C16.fresh: fresh(result)
+//@   ensures C16.len: len(result) == 4 + len(p.FileName) + 8*len(p.P0x9212RetransmitPacketList)
+//@   ensures C16.head: result[0] == p.FileNameLen && result[1+len(p.FileName)] == p.FileType && result[2+len(p.FileName)] == p.UploadResult && result[3+len(p.FileName)] == p.RetransmitPacketNumber
+//@   ensures C16.name: forall(k, 0, len(p.FileName), result[1+k] == p.FileName[k])
+//@   ensures C16.pairs: forall(k, 0, len(p.P0x9212RetransmitPacketList), be32(result, 4+len(p.FileName)+8*k) == p.P0x9212RetransmitPacketList[k].DataOffset && be32(result, 8+len(p.FileName)+8*k) == p.P0x9212RetransmitPacketList[k].DataLength)
+//@   loop 1 invariant idx: 0 - 1 <= rangeindex && rangeindex < len(p.P0x9212RetransmitPacketList)
+//@   loop 1 invariant fresh: fresh(data)
+//@   loop 1 invariant len: len(data) == 4 + len(p.FileName) + 8*(rangeindex+1)
+//@   loop 1 invariant head: data[0] == p.FileNameLen && data[1+len(p.FileName)] == p.FileType && data[2+len(p.FileName)] == p.UploadResult && data[3+len(p.FileName)] == p.RetransmitPacketNumber
+//@   loop 1 invariant name: forall(k, 0, len(p.FileName), data[1+k] == p.FileName[k])
+//@   loop 1 invariant pairs: forall(k, 0, rangeindex+1, be32(data, 4+len(p.FileName)+8*k) == p.P0x9212RetransmitPacketList[k].DataOffset && be32(data, 8+len(p.FileName)+8*k) == p.P0x9212RetransmitPacketList[k].DataLength)
+
+//@ func (*P0x9212).Parse
+//@   loop 1 decreases int(p.RetransmitPacketNumber) - i
+//@   loop 1 invariant C16.i: 0 <= i && i <= int(p.RetransmitPacketNumber)
+//@   loop 1 invariant C16.n: len(p.P0x9212RetransmitPacketList) == old(len(p.P0x9212RetransmitPacketList)) + i
+//@   loop 1 invariant C16.layout: len(body) == 4 + l + 8*int(p.RetransmitPacketNumber) && l == int(body[0]) && p.RetransmitPacketNumber == body[3+l]
+//@   loop 1 invariant C16.body: ptr(body) == old(ptr(jtMsg.Body)) && len(body) == old(len(jtMsg.Body))
+//@   loop 1 invariant C16.pairs: old(len(p.P0x9212RetransmitPacketList)) == 0 ==> forall(k, 0, i, p.P0x9212RetransmitPacketList[k].DataOffset == be32(body, 4+l+8*k) && p.P0x9212RetransmitPacketList[k].DataLength == be32(body, 8+l+8*k))
+//@   requires C16.empty: len(p.P0x9212RetransmitPacketList) == 0
+//@   ensures C16.ok: iff(result == nil, old(len(jtMsg.Body) >= 4 && len(jtMsg.Body) == 4 + int(jtMsg.Body[0]) + 8*int(jtMsg.Body[3+int(jtMsg.Body[0])])))
+//@   ensures C16.count: result == nil ==> len(p.P0x9212RetransmitPacketList) == int(p.RetransmitPacketNumber) && p.RetransmitPacketNumber == old(jtMsg.Body[3+int(jtMsg.Body[0])]) && p.UploadResult == old(jtMsg.Body[2+int(jtMsg.Body[0])])
+//@   ensures C16.inverse: result == nil ==> forall(k, 0, len(p.P0x9212RetransmitPacketList), p.P0x9212RetransmitPacketList[k].DataOffset == old(be32(jtMsg.Body, 4+int(jtMsg.Body[0])+8*k)) && p.P0x9212RetransmitPacketList[k].DataLength == old(be32(jtMsg.Body, 8+int(jtMsg.Body[0])+8*k)))
+
+//@ func (*T0x1212).ReplyBody
+//@   requires C16.count: len(t.P0x9212RetransmitPacketList) <= 255
+//@   ensures C16.noerr: result1 == nil
+//@   ensures C16.len: len(result0) == 4 + len(t.FileName) + 8*len(t.P0x9212RetransmitPacketList)
+//@   ensures C16.complete: len(t.P0x9212RetransmitPacketList) == 0 ==> result0[2+len(t.FileName)] == 0 && result0[3+len(t.FileName)] == 0
+//@   ensures C16.retransmit: len(t.P0x9212RetransmitPacketList) > 0 ==> result0[2+len(t.FileName)] == 1 && int(result0[3+len(t.FileName)]) == len(t.P0x9212RetransmitPacketList)
+//@   ensures C16.pairs: forall(k, 0, len(t.P0x9212RetransmitPacketList), be32(result0, 4+len(t.FileName)+8*k) == t.P0x9212RetransmitPacketList[k].DataOffset && be32(result0, 8+len(t.FileName)+8*k) == t.P0x9212RetransmitPacketList[k].DataLength)
+//@   ensures C16.list: len(t.P0x9212RetransmitPacketList) == old(len(t.P0x9212RetransmitPacketList))
